@@ -338,3 +338,18 @@ add('c19-enzyme-label-again', ['C19'], 'fire', 'Recipe.bake',
     "amount_added = Unit.convert_from(solvent, amount_added, config.moles_storage_unit, 'L')", 'enzyme solvents print 0 L', count=1)
 
 CATALOGUE = C
+
+# F30 re-broken: the solvent container of a create_solution step is left out of the step record again
+add('c15-solvent-container-unrecorded', ['C15', 'C09'], 'fire', 'Recipe.bake',
+    'step.frm.append(self.results[solvent.name])', 'step.frm.append(None)',
+    'the solvent container changes but is not recorded: flows 0, no amount remaining')
+
+# F31 re-broken: the clamp after the rounded refusal gate of fill_to removed
+add('c03-fill-to-clamp-dropped', ['C03'], 'fire', 'Container.fill_to',
+    'required_quantity = max(required_quantity, 0)', 'pass',
+    'a deficit within the internal precision reaches the add as a negative amount')
+
+# F32 re-broken: per-well inflow of a plate as a bare before/after difference
+add('c15-unclipped-plate-inflow', ['C15'], 'fire', 'Recipe.get_container_flows',
+    'np.maximum(vfunc(step.to[1].wells) - vfunc(step.to[0].wells), 0)', 'vfunc(step.to[1].wells) - vfunc(step.to[0].wells)',
+    'negative inflow in the source wells of a same-plate transfer')
